@@ -260,6 +260,134 @@ theorem valid_args {md : Metadata} (h : Valid md) : md.args.all Arg.valid = true
   simp only [Bool.and_eq_true] at h
   exact h.1.1.1.1
 
+/-! ### lemmas for the documented order -/
+
+/-- side condition excluding the two places where the user guide and the code differ: an `xory1d`
+stencil (the guide lists the direction argument after the stencil dofmap, the code passes it
+before), and a `func_type` entry naming `gh_diff_basis` before `gh_basis` (the guide says
+"in the order specified in the metadata", the code always passes basis first). -/
+def Arg.notXory1d : Arg → Bool
+  | .field _ _ _ _ st _ => st != .xory1d
+  | _ => true
+
+def docSide (md : Metadata) : Bool :=
+  md.args.all Arg.notXory1d && md.funcs.all (fun f => !(f.diffFirst && f.basis && f.diff))
+
+theorem any_congr_mem_c21 {α} (l : List α) (f g : α → Bool) (h : ∀ a ∈ l, f a = g a) : l.any f = l.any g := by
+  induction l with
+  | nil => rfl
+  | cons x xs ih =>
+    simp only [List.any_cons]
+    rw [h x (by simp), ih (fun a ha => h a (by simp [ha]))]
+
+theorem flatMap_flatMap_c21 {α β γ} (l : List α) (f : α → List β) (g : β → List γ) :
+    (l.flatMap f).flatMap g = l.flatMap (fun a => (f a).flatMap g) := by
+  induction l with
+  | nil => rfl
+  | cons x xs ih => simp [List.flatMap_cons, List.flatMap_append, ih]
+
+theorem evalShapes_eq {md : Metadata} (h : Valid md) : md.evalShapes = md.shapes := by
+  unfold Valid valid at h
+  simp only [Bool.and_eq_true] at h
+  have h3 := h.1.1.2
+  unfold Metadata.evalShapes
+  split
+  · rfl
+  · rename_i hb
+    have hb' : md.basisRequired = false := by simpa using hb
+    rw [hb'] at h3
+    have : md.shapes.isEmpty = true := by simpa using h3
+    exact (List.isEmpty_iff.mp this).symm
+
+theorem dedupAux_mesh_seen : ∀ l : List MeshProp, dedupAux [MeshProp.adjacentFace] l = []
+  | [] => rfl
+  | .adjacentFace :: xs => by
+    simp only [dedupAux]
+    have : [MeshProp.adjacentFace].contains MeshProp.adjacentFace = true := by decide
+    rw [if_pos this]
+    exact dedupAux_mesh_seen xs
+
+theorem dedup_mesh : ∀ l : List MeshProp, dedup l = if l.isEmpty then [] else [MeshProp.adjacentFace]
+  | [] => rfl
+  | .adjacentFace :: xs => by
+    simp only [dedup, dedupAux]
+    have : ([] : List MeshProp).contains MeshProp.adjacentFace = false := by decide
+    simp [dedupAux_mesh_seen]
+
+theorem mesh_contains : ∀ l : List MeshProp, l.contains MeshProp.adjacentFace = !l.isEmpty
+  | [] => rfl
+  | .adjacentFace :: xs => by simp
+
+theorem flatMap_qr_filter : ∀ l : List Shape,
+    (l.filter Shape.isQuad).flatMap qrAtoms = l.flatMap qrAtoms
+  | [] => rfl
+  | s :: xs => by
+    cases s <;> simp [List.filter, Shape.isQuad, qrAtoms, List.flatMap_cons, flatMap_qr_filter xs]
+
+theorem docQuadrature_eq (md : Metadata) : docQuadrature md = md.shapes.flatMap qrAtoms := by
+  unfold docQuadrature
+  congr 1
+
+/-- rule 3 against the per-argument part of the walk -/
+theorem arg_doc {md : Metadata} {a : Arg} (hc : a.isCma = false)
+    (hx : a.notXory1d = true) :
+    (argCalls a).flatMap (stubExpand md) = docArg a := by
+  cases a with
+  | field dt vec acc fs st m =>
+    cases st <;> simp [Arg.notXory1d] at hx <;>
+      by_cases hv : vec > 1 <;>
+      simp [argCalls, stencilCalls, docArg, docStencil, stubExpand, hv, List.flatMap_cons]
+  | op acc t f => simp [argCalls, docArg, stubExpand, List.flatMap_cons]
+  | cma acc t f => simp [Arg.isCma] at hc
+  | scalar dt acc => simp [argCalls, docArg, stubExpand, List.flatMap_cons]
+
+theorem noCma_cmaOp {md : Metadata} (h : md.hasCma = false) : md.cmaOp = .none := by
+  unfold Metadata.hasCma at h
+  have : md.args.filter Arg.isCma = [] := by
+    rw [List.filter_eq_nil_iff]
+    intro a ha
+    have := List.any_eq_false.mp h a ha
+    simpa using this
+  simp [Metadata.cmaOp, this]
+
+theorem noCma_cmaOnSpace {md : Metadata} (h : md.hasCma = false) (fs : FS) : md.cmaOnSpace fs = false := by
+  unfold Metadata.hasCma at h
+  unfold Metadata.cmaOnSpace
+  rw [List.any_eq_false]
+  intro a ha
+  have := List.any_eq_false.mp h a ha
+  simp [this]
+
+theorem basisByShape_doc {md : Metadata} (hv : Valid md) (q e : Atom) :
+    basisByShape md q e = docOperation md q e := by
+  unfold basisByShape docOperation
+  rw [evalShapes_eq hv]
+
+theorem funcs_doc {md : Metadata} (hv : Valid md) (f : Func)
+    (hf : (!(f.diffFirst && f.basis && f.diff)) = true) :
+    (funcCalls (some f)).flatMap (stubExpand md) = docFuncs md (some f) := by
+  simp only [funcCalls, docFuncs, List.flatMap_append]
+  cases hb : f.basis <;> cases hd : f.diff <;> cases hdf : f.diffFirst <;>
+    simp [hb, hd, hdf, stubExpand, basisByShape_doc hv, List.flatMap_cons] at hf ⊢
+
+/-- rule 4 against the per-function-space part of the walk -/
+theorem fs_doc {md : Metadata} (hv : Valid md) (hsc : docScope md = true) (hside : docSide md = true)
+    (fs : FS) : (fsCalls md fs).flatMap (stubExpand md) = docSpace md fs := by
+  simp only [docScope, Bool.and_eq_true] at hsc
+  obtain ⟨⟨⟨_, hcma⟩, hig⟩, hbc⟩ := hsc
+  have hcma' : md.hasCma = false := by simpa using hcma
+  have hig' : md.isIntergrid = false := by simpa using hig
+  have hbc' : md.bc = .none := by simpa using hbc
+  have hfunc : (funcCalls (md.findFunc fs)).flatMap (stubExpand md) = docFuncs md (md.findFunc fs) := by
+    cases hfind : md.findFunc fs with
+    | none => simp [funcCalls, docFuncs]
+    | some f =>
+      have hmem : f ∈ md.funcs := List.mem_of_find?_eq_some hfind
+      simp only [docSide, Bool.and_eq_true] at hside
+      exact funcs_doc hv f (List.all_eq_true.mp hside.2 f hmem)
+  simp only [fsCalls, docSpace, noCma_cmaOp hcma', noCma_cmaOnSpace hcma', hig', hbc', List.flatMap_append, hfunc]
+  by_cases hfo : md.fieldOnSpace fs = true <;> simp [hfo, stubExpand, List.flatMap_cons]
+
 /-! ## The property -/
 
 /-- Per-leaf agreement, checked against the regenerated tables: for every argument class both sides
@@ -391,13 +519,6 @@ example : (callArgs witnessEvalFirst).map Gen.callSig = (stubArgs witnessEvalFir
 
 /-! ### the documented order -/
 
-/-- side condition excluding the two places where the user guide and the code differ: an `xory1d`
-stencil (the guide lists the direction argument after the stencil dofmap, the code passes it
-before), and a `func_type` entry naming `gh_diff_basis` before `gh_basis` (the guide says
-"in the order specified in the metadata", the code always passes basis first). -/
-def docSide (md : Metadata) : Bool :=
-  md.args.all (fun a => match a with | .field _ _ _ _ st _ => st != .xory1d | _ => true) &&
-  md.funcs.all (fun f => !(f.diffFirst && f.basis && f.diff))
 
 /-- the full documentation clause -/
 def C21_doc_statement : Prop :=
@@ -423,5 +544,82 @@ theorem C21_doc_counterexample : ¬ C21_doc_statement := by
 theorem C21_doc_counterexample_diff_first :
     Valid witnessDiffFirst ∧ docSide witnessDiffFirst = false ∧
     docOrder witnessDiffFirst ≠ some (stubArgs witnessDiffFirst) := by decide
+
+/-- **C21 (documented order)**, general-purpose kernels: outside the two documented-vs-implemented
+differences (`docSide`), the stub's — hence also the caller's (`C21_agree`) — argument list is
+exactly the one prescribed by rules 1–7 of the user guide. -/
+theorem C21_doc_partial : ∀ md : Metadata, Valid md → docSide md = true →
+    ∀ d, docOrder md = some d → stubArgs md = d := by
+  intro md hv hside d hd
+  unfold docOrder at hd
+  split at hd
+  · rename_i hsc
+    injection hd with hd
+    subst hd
+    have hsc' := hsc
+    simp only [docScope, Bool.and_eq_true] at hsc'
+    obtain ⟨⟨⟨hop, hcma⟩, hig⟩, hbc⟩ := hsc'
+    have hcma' : md.hasCma = false := by simpa using hcma
+    have hig' : md.isIntergrid = false := by simpa using hig
+    have hbc' : md.bc = .none := by simpa using hbc
+    have hop' : md.operatesOn = .cellColumn := by simpa using hop
+    have hargs : (md.args.flatMap argCalls).flatMap (stubExpand md) = md.args.flatMap docArg := by
+      rw [flatMap_flatMap_c21]
+      apply flatMap_congr_mem
+      intro a ha
+      simp only [docSide, Bool.and_eq_true] at hside
+      refine arg_doc ?_ (List.all_eq_true.mp hside.1 a ha)
+      have := List.any_eq_false.mp (by simpa [Metadata.hasCma] using hcma') a ha
+      simpa using this
+    have hfss : (md.uniqueFss.flatMap (fsCalls md)).flatMap (stubExpand md)
+        = (dedup (md.args.flatMap Arg.spaces)).flatMap (docSpace md) := by
+      rw [flatMap_flatMap_c21]
+      apply flatMap_congr_mem
+      intro fs _
+      exact fs_doc hv hsc hside fs
+    have hop2 : md.hasOperator = md.hasLma := by
+      unfold Metadata.hasOperator Metadata.hasLma
+      apply any_congr_mem_c21
+      intro a ha
+      have := List.any_eq_false.mp (by simpa [Metadata.hasCma] using hcma') a ha
+      simp [this]
+    have href : (if (!md.refelem.isEmpty) = true then [Call.refElement] else []).flatMap (stubExpand md)
+        = docRefElement md.refelem := by
+      cases hr : md.refelem with
+      | nil => rfl
+      | cons x xs => simp [stubExpand, hr, refAtoms, docRefElement, List.flatMap_cons]
+    have hmesh : (if (!md.mesh.isEmpty) = true then [Call.meshProperties] else []).flatMap (stubExpand md)
+        = docMesh md := by
+      unfold docMesh
+      rw [mesh_contains]
+      cases hm : md.mesh with
+      | nil => rfl
+      | cons x xs =>
+        cases x
+        simp [stubExpand, meshAtoms, hm, dedup_mesh, List.flatMap_cons]
+    have hqr : (if (!md.qrShapes.isEmpty) = true then [Call.quadRule] else []).flatMap (stubExpand md)
+        = docQuadrature md := by
+      rw [docQuadrature_eq, ← flatMap_qr_filter, ← evalShapes_eq hv]
+      change _ = md.qrShapes.flatMap qrAtoms
+      cases hq : md.qrShapes with
+      | nil => rfl
+      | cons x xs => simp [stubExpand, hq, List.flatMap_cons]
+    simp only [stubArgs, walk, List.flatMap_append, hargs, hfss, href, hmesh, hqr, noCma_cmaOp hcma',
+      hcma', hig', hbc', hop', hop2]
+    cases md.hasLma <;> simp [stubExpand, List.flatMap_cons]
+  · simp at hd
+
+example : Valid witnessDiffFirst := by decide
+/-- non-vacuity of `C21_doc_partial`: a kernel with an LMA operator, a field vector with a region
+stencil, basis functions, two shapes, reference-element and mesh properties is in its scope -/
+def docExample : Metadata :=
+  { operatesOn := .cellColumn
+    args := [.op .write 0 1, .field .real 3 .read 0 .region .none, .scalar .integer .read,
+             .field .real 1 .read 2 .cross2d .none]
+    funcs := [{ fs := 0, basis := true, diff := true }]
+    shapes := [.evaluator, .face], targets := [0, 1]
+    refelem := [.normalsV, .outH], mesh := [.adjacentFace], bc := .none }
+example : Valid docExample ∧ docSide docExample = true ∧ StubSupported docExample ∧
+    docOrder docExample = some (stubArgs docExample) ∧ (stubArgs docExample).length = 35 := by decide
 
 end C21
